@@ -101,6 +101,50 @@ Proof.
   induction fuel as [|f IH]; intros g W L; cbn [rounds]; [lia|]. destruct g as [|a r] eqn:E; [cbn; lia|]. rewrite <- E in *.
   assert (N : g <> []) by (rewrite E; discriminate). pose proof (round_shrinks g W N) as S. specialize (IH (round g) (round_wf g W)). lia.
 Qed.
+(* every member is either exited in this pass or stays for the next one *)
+Lemma member_exits_or_stays : forall g x, In x g -> In (gid x) (map gid (exiting g)) \/ In x (round g).
+Proof.
+  intros g x I. destruct (is_via g (gid x)) eqn:V.
+  - right. unfold round. apply filter_In. auto.
+  - left. apply in_map. unfold exiting. apply filter_In. rewrite V. auto.
+Qed.
+
+(* Group.terminate with the loop running while members OR exited-but-unjoined gateways remain: afterwards the group is empty,
+   nothing is left to join, and every gateway that was a member or had been exit()ed before went through safe_terminate *)
+Theorem terminate_joins_everything : forall fuel s, wf_forest (members s) -> length (members s) + 1 < fuel ->
+  let s' := terminate_loop true fuel s in
+  members s' = [] /\ tojoin s' = [] /\
+  (forall i, In i (joined s) \/ In i (tojoin s) \/ In i (map gid (members s)) -> In i (joined s')).
+Proof.
+  induction fuel as [|f IH]; intros s W L; [lia|]. cbn [terminate_loop].
+  destruct (members s) as [|a r] eqn:M.
+  - destruct (tojoin s) as [|j js] eqn:T.
+    + cbn. repeat split; auto. intros i [H|[H|H]]; [exact H|destruct H|destruct H].
+    + (* only exited gateways are left: one more pass joins them *)
+      assert (W1 : wf_forest (members (tpass s))) by (cbn [tpass members]; rewrite M; cbn; split; [constructor|intros x []]).
+      destruct f as [|f']; [cbn in L; lia|].
+      assert (E : terminate_loop true (S f') (tpass s) = tpass s) by (cbn [terminate_loop tpass members tojoin]; rewrite M; reflexivity).
+      rewrite E. cbn [tpass members tojoin joined]. rewrite M. cbn. repeat split; auto.
+      rewrite ?T. intros i [H|[H|[]]]; apply in_or_app; [left; exact H|right; apply in_or_app; left; exact H].
+  - assert (N : members s <> []) by (rewrite M; discriminate). rewrite <- M in *.
+    pose proof (round_shrinks (members s) W N) as Sh.
+    assert (L1 : length (members (tpass s)) + 1 < f) by (cbn [tpass members]; lia).
+    specialize (IH (tpass s) (round_wf _ W) L1). cbn zeta in IH. destruct IH as [A [B Cj]].
+    assert (X : terminate_loop true f (tpass s) = match tojoin s with [] => terminate_loop true f (tpass s) | _ => terminate_loop true f (tpass s) end) by (destruct (tojoin s); reflexivity).
+    replace (match (if true then tojoin s else []) with [] => terminate_loop true f (tpass s) | _ :: _ => terminate_loop true f (tpass s) end) with (terminate_loop true f (tpass s)) by (cbn; destruct (tojoin s); reflexivity).
+    repeat split; auto. intros i H. apply Cj. cbn [tpass joined members].
+    destruct H as [H|[H|H]].
+    + left. apply in_or_app. auto.
+    + left. apply in_or_app. right. apply in_or_app. auto.
+    + apply in_map_iff in H. destruct H as [x [E Ix]]. subst i. destruct (member_exits_or_stays _ x Ix) as [Q|Q].
+      * left. apply in_or_app. right. apply in_or_app. auto.
+      * right. right. apply in_map. exact Q.
+Qed.
+
+(* the loop `while self:` alone forgets gateways that were exit()ed before terminate() was called *)
+Lemma terminate_forgets_exited_refuted : exists s, members s = [] /\ tojoin (terminate_loop false 5 s) <> [] /\ joined (terminate_loop false 5 s) = [].
+Proof. exists {| members := []; tojoin := [7]; joined := [] |}. cbn. repeat split; discriminate. Qed.
+
 Fixpoint iter_round (n : nat) (g : list gwnode) : list gwnode := match n with O => g | S m => iter_round m (round g) end.
 Theorem group_empty_after : forall g, wf_forest g -> iter_round (length g) g = [].
 Proof.
